@@ -58,6 +58,23 @@ def _base_key(k):
     return k
 
 
+def _same_base(k1, k2):
+    """Do two keys denote the same object (looking through effect wrappers)?  Structural equality first, then
+    equality of the terms under random interpretation (differently written, equal expressions)."""
+    a, b = _base_key(k1), _base_key(k2)
+    if a == b:
+        return True
+    try:
+        from ..termflow import Poly, poly_from_key
+
+        def val(k):
+            return poly_from_key(k) if _is_polykey(k) else Poly.atom(k)
+
+        return equivalent(val(a), val(b))[0]
+    except (Unsupported, AnalysisError, TypeError, ValueError):
+        return False
+
+
 def _str_of_key(k):
     a = _atom(k)
     if a is not None and a[0] == "const" and isinstance(a[1], str) and a[1][:1] in ("'", '"'):
@@ -321,10 +338,33 @@ def rule_N1(ctx):
                         return True
         if step.kind == "iter" and id(step.node) in loops:  # zero iterations: there is no node to add
             l = loops[id(step.node)]
-            if isinstance(l.target, ast.Name) and u(l.iter) == "%s.nodes()" % src:
-                for s in l.body:
-                    if isinstance(s, ast.Expr) and isinstance(s.value, ast.Call) and u(s.value.func) == "%s.add_node" % G and s.value.args and u(s.value.args[0]) == "%s.node_id" % l.target.id:
-                        return True
+            if _adds_own_node(l, G) is not None:
+                return True
+        return False
+
+    def _adds_own_node(l, G):
+        """Index of the top-level statement of loop `l` (over every node of the source graph) that adds the loop's
+        own node to G — by `<target>.node_id` or a local bound to it in the body — or None."""
+        if not (isinstance(l.target, ast.Name) and u(l.iter) == "%s.nodes()" % src):
+            return None
+        names = {"%s.node_id" % l.target.id}
+        for i, st_ in enumerate(l.body):
+            if isinstance(st_, ast.Assign) and len(st_.targets) == 1 and isinstance(st_.targets[0], ast.Name) and u(st_.value) in names:
+                names.add(st_.targets[0].id)
+            if isinstance(st_, ast.Expr) and isinstance(st_.value, ast.Call) and u(st_.value.func) == "%s.add_node" % G and st_.value.args and u(st_.value.args[0]) in names:
+                return i, names
+        return None
+
+    def _own_node_added_before(n, G):
+        """A lookup G.nodes[x] inside the per-node loop, after that loop's `G.add_node(x)` for the same node."""
+        for l in loops.values():
+            r = _adds_own_node(l, G)
+            if r is None:
+                continue
+            i, names = r
+            for j, st_ in enumerate(l.body):
+                if any(x is n for x in ast.walk(st_)):
+                    return j > i and u(n.slice) in names
         return False
 
     def lookups(step, G):
@@ -346,7 +386,7 @@ def rule_N1(ctx):
                     added = i
                 for n in lookups(s, G):
                     look_seen.setdefault(id(n), [n, True])
-                    if added is None:
+                    if added is None and not _own_node_added_before(n, G):
                         look_seen[id(n)][1] = False
                 if s.kind == "stmt" and isinstance(s.node, ast.Return) and isinstance(s.node.value, ast.Name) and s.node.value.id == G:
                     ret_seen.setdefault(id(s.node), [s.node, True])
@@ -479,11 +519,27 @@ def _record_alts(item):
     return [(TRUE, ("opaque", k))]
 
 
+def _guards_equal(g1, g2, trials=32):
+    """Same test: identical, or the same truth value under congruent random interpretations."""
+    if g1 == g2:
+        return True
+    from ..termflow import Valuation
+
+    try:
+        for t in range(trials):
+            v = Valuation(t, salt="s0")
+            if v.truth(g1) != v.truth(g2):
+                return False
+        return True
+    except (ValueError, OverflowError, ZeroDivisionError, Unsupported, TypeError):
+        return False
+
+
 def _alts_equal(ga, wa, fields):
     if len(ga) != len(wa):
         return False
     for (g1, r1), (g2, r2) in zip(ga, wa):
-        if g1 != g2:
+        if not _guards_equal(g1, g2):
             return False
         if r1 is None or r2 is None:
             if r1 is not r2:
@@ -567,7 +623,7 @@ def rule_N2(ctx):
     if len(gs) != 1:
         ctx.fail("N2", "get_labels_table (pre-clustered): the fill-in rows get clone_id = outlier node name", f.where(), "%d assignment(s) of a 'clone_id' column in the pre-clustered arm (expected one, on the rows not seen)" % len(gs), construct=f.qualname, stmt="pre-clustered: fill-in clone_id")
     else:
-        ok = _eq(gs[0].args[2], ws[0].args[2]) and _base_key(vkey(gs[0].args[0])) == _base_key(vkey(ws[0].args[0]))
+        ok = _eq(gs[0].args[2], ws[0].args[2]) and _same_base(vkey(gs[0].args[0]), vkey(ws[0].args[0]))
         ctx.check(ok, "N2", "get_labels_table (pre-clustered): the fill-in rows get clone_id = outlier node name", f.where(gs[0].node), "the rows not seen are %s with clone_id = %s; the specification: %s with clone_id = %s" % (show(gs[0].args[0])[:200], show(gs[0].args[2])[:80], show(ws[0].args[0])[:200], show(ws[0].args[2])[:80]), construct=f.qualname, stmt="pre-clustered: fill-in clone_id")
     ctx.analysed(f)
 
@@ -619,14 +675,14 @@ def rule_N3_N4(ctx):
     else:
         val, base = gs[0].args[2], gs[0].args[0]
     wval, wbase = ws[0].args[2], ws[0].args[0]
-    ok = _eq(val, wval) and _base_key(vkey(base)) == _base_key(vkey(wbase))
+    ok = _eq(val, wval) and _same_base(vkey(base), vkey(wbase))
     ctx.check(ok, "N3", "get_clone_table: sample_id = [samples] * len(labels) on the labels table", f.where(gs[0].node), "the sample_id column of %s is %s; every row must carry the whole sample list (%s) so that explode yields one row per sample" % (show(base)[:120], show(val)[:200], show(wval)[:200]), construct=f.qualname, stmt="sample_id column")
     # N3.b
     ge, we = ex.calls(".explode"), sp.calls(".explode")
     if not ge:
         ctx.fail("N3", "get_clone_table: the table is exploded on sample_id", f.where(), "no explode: each mutation appears once with a list of samples instead of once per sample", construct=f.qualname, stmt="explode")
     else:
-        ok = len(ge) == 1 and ge[0].args and _str_of(ge[0].args[0]) == "sample_id" and _base_key(vkey(ge[0].recv)) == _base_key(vkey(base))
+        ok = len(ge) == 1 and ge[0].args and _str_of(ge[0].args[0]) == "sample_id" and _same_base(vkey(ge[0].recv), vkey(base))
         ctx.check(ok, "N3", "get_clone_table: the table is exploded on sample_id", f.where(ge[0].node), "explode(%s) on %s; expected explode('sample_id') on the labels table that received the column" % (", ".join(show(a) for a in ge[0].args), show(ge[0].recv)[:160]), construct=f.qualname, stmt="explode")
     # N3.c the returned frame is the concatenation of the groups of the exploded frame
     if ex.result is None:
@@ -653,7 +709,7 @@ def rule_N3_N4(ctx):
             continue
         ok, why = True, ""
         for k, wv in wsub.items():
-            match = [gv for gk, gv in gsub.items() if _base_key(gk[0]) == _base_key(k[0])]
+            match = [gv for gk, gv in gsub.items() if _same_base(gk[0], k[0])]
             if len(match) != 1:
                 ok, why = False, "group %s receives no %r value" % (show_key(k[0])[:120], col)
                 break
@@ -800,7 +856,7 @@ def rule_N5(ctx):
         """, tn)
     gd, wd = _events(exn, "dfs_search"), _events(spn, "dfs_search")
     ok = len(gd) == 1 and len(gd[0].args) == 3 and all(_eq(a, b) for a, b in zip(gd[0].args, wd[0].args))
-    res_ok = exn.result is not None and _base_key(vkey(exn.result)) == _base_key(vkey(spn.result))
+    res_ok = exn.result is not None and _same_base(vkey(exn.result), vkey(spn.result))
     ctx.check(ok and res_ok, "N5", "to_newick_string runs one DFS of the tree's own graph from the root with a fresh visitor and returns its final_string", tn.where(), "dfs_search(%s) returning %s; expected dfs_search(%s) returning %s" % (", ".join(show(a)[:80] for a in gd[0].args) if gd else "-", show(exn.result)[:100], ", ".join(show(a)[:80] for a in wd[0].args), show(spn.result)[:100]), construct=tn.qualname, stmt="to_newick_string")
     ctx.analysed(fv, te, init, tn)
 
